@@ -176,6 +176,14 @@ class Translator:
         return None
 
     def name(self, ident: str, want: str) -> str:
+        if ident not in self.params and getattr(self, "alpha", None) is not None:
+            # alpha mode (second attempt after a free name was met): an identifier that is neither a declared parameter nor a constant
+            # is bound to the next declared parameter that does not occur under its own name, in order of first occurrence
+            if ident in self.alpha:
+                ident = self.alpha[ident]
+            elif self._resolvable(ident) is False and self.alpha_pool:
+                self.alpha[ident] = self.alpha_pool.pop(0)
+                ident = self.alpha[ident]
         if ident in self.params:
             have = self.params[ident]
             if have == want:
@@ -199,6 +207,11 @@ class Translator:
         finally:
             self.depth -= 1
         raise Unsupported(f"free name {ident}")
+
+    def _resolvable(self, ident: str) -> bool:
+        if self.inline_locals and self._local_const(ident) is not None:
+            return True
+        return self._module_const(ident) is not None
 
     # -- integer expressions --------------------------------------------------------------
     def z(self, e: ast.AST) -> str:
@@ -516,10 +529,37 @@ def translate(k: Kernel) -> str:
         return f"(* {k.file} :: {k.func} :: shape kernel :  {src} *)\nDefinition {k.name} {binders} : {k.ty} :=\n  {body}.\n"
     expr = _select(func, k.sel)
     tr = Translator(mod, func, dict(k.params), k.inline_locals, dict(k.calls))
-    body = tr.any(expr, k.ty)
+    note = ""
+    try:
+        body = tr.any(expr, k.ty)
+    except Unsupported as first:
+        if not str(first).startswith("free name"):
+            raise
+        # the expression may be the declared one up to a renaming of locals: bind the unknown identifiers to the declared parameters
+        # that do not occur under their own name, by order of first occurrence; all of them must be used, otherwise give up
+        idents = set()
+        for n in ast.walk(expr):
+            if isinstance(n, ast.Name):
+                idents.add(n.id)
+            d = _dotted(n) if isinstance(n, ast.Attribute) else None
+            if d:
+                idents.add(d)
+                idents.add("len_" + d)
+            if isinstance(n, ast.Name):
+                idents.add("len_" + n.id)
+        pool = [p for p, _ in k.params if p not in idents]
+        tr = Translator(mod, func, dict(k.params), k.inline_locals, dict(k.calls))
+        tr.alpha, tr.alpha_pool = {}, list(pool)
+        try:
+            body = tr.any(expr, k.ty)
+        except Unsupported:
+            raise first
+        if tr.alpha_pool or not tr.alpha:
+            raise first
+        note = " (locals renamed: " + ", ".join(f"{a} = {b}" for a, b in tr.alpha.items()) + ")"
     binders = " ".join(f"({n} : {ty})" for n, ty in k.params)
     src = ast.unparse(expr)
-    return f"(* {k.file} :: {k.func} :: {k.sel!r} :  {src} *)\nDefinition {k.name} {binders} : {k.ty} :=\n  {body}.\n"
+    return f"(* {k.file} :: {k.func} :: {k.sel!r} :  {src}{note} *)\nDefinition {k.name} {binders} : {k.ty} :=\n  {body}.\n"
 
 
 def python_source(k: Kernel) -> str:
